@@ -39,6 +39,8 @@ def parse_out(path):
             res.append(cur)
         elif c == "S" and line[1] == " ":
             _, sid, rest = line.rstrip("\n").split(" ", 2)
+            if "|E:" not in rest:
+                continue  # line cut short by a crash of the worker
             canon, _, en = rest.rpartition("|E:")
             enl = [tuple(map(int, e.split("/"))) for e in en.split(",") if e]
             cur["states"][int(sid)] = (canon, enl)
